@@ -75,6 +75,8 @@ func Progs(rc *vk.Rec) {
 	if env.Scratch == "" {
 		env.Scratch, _ = os.MkdirTemp("", "progs")
 	}
+	// 16 shards run side by side: each keeps its own compiler fan-out small
+	wprog.CParallel = 3
 	env.Scratch = fmt.Sprintf("%s/shard%d", env.Scratch, rc.Shard)
 	os.MkdirAll(env.Scratch, 0o755)
 	var nTotal, cEvery int
